@@ -1,15 +1,30 @@
-"""setup-time self test: reference codecs vs repository samples (filled in as
-codecs are added)"""
+"""setup-time self test of every independent reference model: each must
+reproduce the repository's sample files / the literal values asserted by the
+repository's own tests (or, where the repository has no sample, hand-computed
+anchors) before a check that relies on it is trusted."""
 import sys
 
 
 def main():
-    try:
-        from .ref import selfcheck
-    except ImportError:
-        print('selftest: no reference codecs yet')
-        return 0
-    return selfcheck.main()
+    rc = 0
+    from .ref import selfcheck
+    rc |= 1 if selfcheck.main() else 0
+    from .ref import bpch_ref, icartt_ref, arl_ref, caltime
+    for name, mod in (('bpch_ref', bpch_ref), ('icartt_ref', icartt_ref),
+                      ('arl_ref', arl_ref)):
+        errs = mod.selfcheck()
+        print('selfcheck %s: %d failure(s)' % (name, len(errs)))
+        for e in errs[:10]:
+            print('   ', e)
+        if errs:
+            rc = 1
+    res = caltime.selftest()
+    errs = res if isinstance(res, (list, tuple)) else ([] if res in (None, True, 0) else [res])
+    print('selfcheck caltime: %d failure(s)' % len(errs))
+    if errs:
+        print('   ', errs[:10])
+        rc = 1
+    return rc
 
 
 if __name__ == '__main__':
